@@ -815,6 +815,7 @@ SIM_EXPORT void sim_quiesce(uint64_t budget)
         hmix(0xC0000000ull);
     }
     g_budget_end = g_step + budget;
+    if (g_rr_quantum < 64) g_rr_quantum = 64;
     for (int i = 0; i < g_nthr; i++)
         if (g_thr[i].st == T_STALL) make_runnable(&g_thr[i]);
 }
